@@ -119,7 +119,7 @@ def run(ctx):
     from piquasso.dual_rail_encoding import dual_rail_encode_from_qiskit, get_bosonic_qubit_samples
     quick = ctx.tier == "quick"
     rng = random.Random(ctx.seed + 19)
-    plans = [(1, 10, 2, True, None), (2, 8, 2, True, None)]
+    plans = [(1, 10, 2, True, None), (2, 8, 2, True, None), (3, 6, 2, True, 4)]      # three qubits: conditioned two-qubit gates become possible
     if not quick:
         plans += [(2, 9, 3, True, None), (3, 8, 2, True, 20)]
     total = 0
@@ -195,7 +195,8 @@ def run(ctx):
                     sim_ = pq.PureFockSimulator(d=d, config=pq.Config(cutoff=nq + 2 * ncz + 1, seed_sequence=5))
                     result = sim_.execute(prog, shots=None)
                 except Exception as e:  # noqa
-                    ctx.report(f"C19:raises:{type(e).__name__}:{'cz' if ncz else 'nocz'}:{'cond' if any(len(c) == 2 for _, c in key) else 'plain'}:{'clbit=qubit' if natural and order and order[0] != 0 else ('clbit=position' if mapping < 2 else 'clbit=crossed')}",
+                    cond2q = any(len(c) == 2 and op and len(ops[op - 1]["qubits"]) == 2 for op, c in key)
+                    ctx.report(f"C19:raises:{type(e).__name__}:{'cz' if ncz else 'nocz'}:{'cond-2q' if cond2q else ('cond' if any(len(c) == 2 for _, c in key) else 'plain')}:{'clbit=qubit' if natural and order and order[0] != 0 else ('clbit=position' if mapping < 2 else 'clbit=crossed')}",
                                f"translation / execution raised {type(e).__name__}: {str(e)[:120]} for {names}", replay)
                     continue
                 got = {}
